@@ -445,7 +445,7 @@ def run(ctx):
                 'of 9 valid PDUs (truncation with/without fixed length, every length field set to 0/1/len-1/len+1/'
                 'FFFF/FFFFFFFF, type bytes at every nesting level, control header, context id, non-ASCII bytes), 20 '
                 'semantically hostile P-DATA-TF PDUs, Hypothesis random mixes of garbage / valid / bit-flipped PDUs, '
-                'random segmentation, then peer close and 2 x 11.5 s; thorough adds an atheris coverage-guided '
+                'floods of 300-1500 valid messages and bursts of 1500 / 5000 of the smallest PDUs there are (empty P-DATA-TF, one-byte PDV, release request / response, unknown type) in every state; random segmentation, then peer close and 2 x 11.5 s; thorough adds an atheris coverage-guided '
                 'campaign; non-trivial = stream contains a complete frame the reference parser rejects; distinct by '
                 '(state, SHA-1(stream), segmentation)')
     ctx.assumptions = ['leniently accepted malformed frames are fine as long as the loop survives, output is '
